@@ -55,9 +55,7 @@ seq_reversed = _unsup('reversed sequence')
 seq_method = _unsup('sequence method')
 seq_join = _unsup('join over sequence')
 sym_range = _unsup('range with symbolic bound')
-filter_ = _unsup('filter over symbolic value')
 rl_slice = _unsup('slice of run-length string')
-str_replace = _unsup('replace on opaque string')
 str_startswith = _unsup('startswith on symbolic string')
 str_endswith = _unsup('endswith on symbolic string')
 str_order = _unsup('ordering of symbolic strings')
@@ -85,3 +83,65 @@ def sorted_(I, args, kwargs):
     ck = [conc(k) for k in keys]
     order = sorted(range(len(items)), key=lambda i: ck[i], reverse=bool(reverse))
     return [items[i] for i in order]
+
+
+def filter_(I, fn, xs):
+    """filter(pred, <run-length string>): the predicate is decided by the (concrete) character of each run."""
+    if isinstance(xs, SStr):
+        parts = []
+        for p in xs.parts:
+            if p[0] == 'lit':
+                keep = ''
+                for ch in p[1]:
+                    t = I.truth(I.call(fn, [ch], {}))
+                    if not isinstance(t, bool):
+                        raise Unsupported('filter predicate not decided by the character')
+                    if t:
+                        keep += ch
+                parts.append(('lit', keep))
+            elif p[0] == 'run':
+                t = I.truth(I.call(fn, [p[1]], {}))
+                if not isinstance(t, bool):
+                    raise Unsupported('filter predicate not decided by the character')
+                if t:
+                    parts.append(p)
+            else:
+                raise Unsupported('filter over str(int) / opaque string')
+        r = SStr(parts)
+        c = r.concrete()
+        return c if c is not None else r
+    raise Unsupported('filter over a symbolic sequence')
+
+
+def str_replace(I, S, old, new):
+    """replace(old, new) with a multi-character literal `old` on a template string: exact when `old` can only occur inside
+    literal parts (no run character belongs to `old`, and no occurrence can span two literals separated by runs that
+    may be empty)."""
+    if not (isinstance(old, str) and isinstance(new, str) and len(old) >= 1):
+        raise Unsupported('replace with symbolic pattern')
+    lits = []
+    for p in S.parts:
+        if p[0] == 'run':
+            if p[1] in old:
+                raise Unsupported('replace: pattern shares a character with a run')
+        elif p[0] == 'int':
+            if any(c in '-0123456789' for c in old):
+                raise Unsupported('replace: pattern may occur in str(int)')
+        elif p[0] == 'sym':
+            raise Unsupported('replace on opaque string')
+    # occurrences spanning consecutive literals (when the runs between them are empty)
+    prev = None
+    for p in S.parts:
+        if p[0] == 'lit':
+            if prev is not None:
+                joined = prev + p[1]
+                for k in range(max(0, len(prev) - len(old) + 1), len(prev)):
+                    if joined[k:k + len(old)] == old:
+                        raise Unsupported('replace: an occurrence could span two literal parts')
+            prev = p[1]
+        elif p[0] == 'int':
+            prev = None
+    parts = [('lit', p[1].replace(old, new)) if p[0] == 'lit' else p for p in S.parts]
+    r = SStr(parts)
+    c = r.concrete()
+    return c if c is not None else r
